@@ -234,25 +234,25 @@ theorem replicas_nodup (bi : BlockInfo) : bi.replicas.Nodup := nodup_replicasFro
 /-- the same-(host, replica) partner of `f` in block `to` -/
 def partner (to : BlockInfo) (f : Coord) : Coord := ⟨to.id, f.host, f.replica⟩
 
-theorem consumers_non_forward (from_ to : BlockInfo) (f : Coord) (h : from_.onlyOne = false) :
-    consumers from_ to false f = to.replicas := by
-  simp [consumers, connects, h]
+/-- the inner loop of `build_execution_graph` for producer replica `f` -/
+def loopPart (from_ to : BlockInfo) (fragile : Bool) (f : Coord) : List Coord :=
+  to.replicas.filter (connects from_.onlyOne fragile to.replicas.length f)
 
-theorem consumers_single (from_ to : BlockInfo) (fragile : Bool) (f : Coord)
-    (h : to.replicas.length = 1) : consumers from_ to fragile f = to.replicas := by
-  unfold consumers connects
+theorem loopPart_single (from_ to : BlockInfo) (fragile : Bool) (f : Coord)
+    (h : to.replicas.length = 1) : loopPart from_ to fragile f = to.replicas := by
+  unfold loopPart connects
   rw [List.filter_eq_self]
   intro a _
   simp [h]
 
-theorem consumers_partner (from_ to : BlockInfo) (fragile : Bool) (f : Coord)
+theorem loopPart_partner (from_ to : BlockInfo) (fragile : Bool) (f : Coord)
     (hfw : (from_.onlyOne || fragile) = true) (hp : partner to f ∈ to.replicas) :
-    consumers from_ to fragile f = [partner to f] := by
+    loopPart from_ to fragile f = [partner to f] := by
   by_cases h1 : to.replicas.length = 1
-  · rw [consumers_single _ _ _ _ h1]
+  · rw [loopPart_single _ _ _ _ h1]
     match hr : to.replicas, h1 with
     | [x], _ => rw [hr] at hp; simp at hp; rw [hp]
-  · unfold consumers
+  · unfold loopPart
     apply filter_eq_singleton (replicas_nodup to) hp
     · simp [connects, hfw, partner]
     · intro x hx hc
@@ -261,10 +261,10 @@ theorem consumers_partner (from_ to : BlockInfo) (fragile : Bool) (f : Coord)
         Bool.and_eq_true] at hc
       cases x; simp_all [partner]
 
-theorem consumers_orphan (from_ to : BlockInfo) (fragile : Bool) (f : Coord)
+theorem loopPart_orphan (from_ to : BlockInfo) (fragile : Bool) (f : Coord)
     (hfw : (from_.onlyOne || fragile) = true) (hp : partner to f ∉ to.replicas)
-    (h1 : to.replicas.length ≠ 1) : consumers from_ to fragile f = [] := by
-  unfold consumers
+    (h1 : to.replicas.length ≠ 1) : loopPart from_ to fragile f = [] := by
+  unfold loopPart
   rw [List.filter_eq_nil_iff]
   intro x hx hc
   have hb := ((mem_replicas to x).mp hx).1
@@ -273,6 +273,89 @@ theorem consumers_orphan (from_ to : BlockInfo) (fragile : Bool) (f : Coord)
   apply hp
   have : x = partner to f := by cases x; simp_all [partner]
   rw [← this]; exact hx
+
+theorem any_partner (to : BlockInfo) (f : Coord) :
+    to.replicas.any (fun t => t.host == f.host && t.replica == f.replica) = true ↔
+      partner to f ∈ to.replicas := by
+  rw [List.any_eq_true]
+  constructor
+  · rintro ⟨t, ht, h⟩
+    have hb := ((mem_replicas to t).mp ht).1
+    have : t = partner to f := by cases t; simp_all [partner]
+    rw [← this]; exact ht
+  · intro h; exact ⟨partner to f, h, by simp [partner]⟩
+
+theorem consumers_eq (from_ to : BlockInfo) (fragile : Bool) (f : Coord) :
+    consumers from_ to fragile f =
+      (if orphan from_.onlyOne fragile to.replicas f then
+        match to.replicas[from_.globalId f % to.replicas.length]? with
+        | some t => [t]
+        | none => []
+       else []) ++ loopPart from_ to fragile f := rfl
+
+theorem consumers_non_forward (from_ to : BlockInfo) (f : Coord) (h : from_.onlyOne = false) :
+    consumers from_ to false f = to.replicas := by
+  simp [consumers, orphan, connects, h]
+
+theorem consumers_single (from_ to : BlockInfo) (fragile : Bool) (f : Coord)
+    (h : to.replicas.length = 1) : consumers from_ to fragile f = to.replicas := by
+  rw [consumers_eq, loopPart_single _ _ _ _ h]
+  simp [orphan, h]
+
+theorem consumers_partner (from_ to : BlockInfo) (fragile : Bool) (f : Coord)
+    (hfw : (from_.onlyOne || fragile) = true) (hp : partner to f ∈ to.replicas) :
+    consumers from_ to fragile f = [partner to f] := by
+  rw [consumers_eq, loopPart_partner _ _ _ _ hfw hp]
+  simp [orphan, (any_partner to f).mpr hp]
+
+/-- a fragile link is never completed by the fallback -/
+theorem consumers_fragile_no_partner (from_ to : BlockInfo) (f : Coord)
+    (hp : partner to f ∉ to.replicas) (h1 : to.replicas.length ≠ 1) :
+    consumers from_ to true f = [] := by
+  rw [consumers_eq, loopPart_orphan _ _ _ _ (by simp) hp h1]
+  simp [orphan]
+
+/-- the fallback of commit 3deb123 -/
+theorem consumers_orphan (from_ to : BlockInfo) (f : Coord) (hoo : from_.onlyOne = true)
+    (hp : partner to f ∉ to.replicas) (h1 : to.replicas.length ≠ 1) (hne : to.replicas ≠ []) :
+    ∃ h : from_.globalId f % to.replicas.length < to.replicas.length,
+      consumers from_ to false f = [to.replicas[from_.globalId f % to.replicas.length]] := by
+  have hpos : 0 < to.replicas.length := List.length_pos_iff.mpr hne
+  have hlt := Nat.mod_lt (from_.globalId f) hpos
+  refine ⟨hlt, ?_⟩
+  rw [consumers_eq, loopPart_orphan _ _ _ _ (by simp [hoo]) hp h1]
+  have hany : to.replicas.any (fun t => t.host == f.host && t.replica == f.replica) = false := by
+    cases h : to.replicas.any (fun t => t.host == f.host && t.replica == f.replica) with
+    | false => rfl
+    | true => exact absurd ((any_partner to f).mp h) hp
+  have hgt : to.replicas.length > 1 := by omega
+  simp [orphan, hoo, hany, hgt, List.getElem?_eq_getElem hlt]
+
+theorem replicasFrom_sorted (b : Nat) : ∀ (ns : List Nat) (h0 : Nat),
+    (replicasFrom b h0 ns).Pairwise (fun a c => lexLe a.key c.key = true) := by
+  intro ns
+  induction ns with
+  | nil => intro h0; simp [replicasFrom]
+  | cons n ns ih =>
+    intro h0
+    simp only [replicasFrom]
+    rw [List.pairwise_append]
+    refine ⟨?_, ih (h0 + 1), ?_⟩
+    · rw [List.pairwise_map]
+      refine (List.pairwise_lt_range (n := n)).imp ?_
+      intro x y hxy
+      simp [Coord.key, lexLe]; omega
+    · intro a ha c hc
+      simp only [List.mem_map, List.mem_range] at ha
+      obtain ⟨r, _, rfl⟩ := ha
+      have := (mem_replicasFrom b ns (h0 + 1) c).mp hc
+      obtain ⟨hb, hh, _⟩ := this
+      simp [Coord.key, lexLe, hb]; omega
+
+/-- the replicas of a block are listed in coordinate order: `sorted` in the fallback of
+    `build_execution_graph` is this list -/
+theorem replicas_sorted (bi : BlockInfo) :
+    bi.replicas.Pairwise (fun a c => lexLe a.key c.key = true) := replicasFrom_sorted _ _ _
 
 /-! ### ports -/
 
